@@ -322,9 +322,21 @@ const (
 	exitHang = 97
 	exitMem  = 98
 	// a single library call normally takes microseconds
-	hangAfter = 10 * time.Second
-	memLimit  = 1 << 30
+	memLimit = 1 << 30
 )
+
+// hangAfter is the no-progress time after which a library call counts as hung.
+// Verdicts use 10 s; candidates tried by the minimiser of a fatal failure use
+// GOTSIM_HANG_MS (a wrong guess there only costs minimisation quality: the
+// minimised script is confirmed again with the full threshold).
+var hangAfter = func() time.Duration {
+	if s := os.Getenv("GOTSIM_HANG_MS"); s != "" {
+		if v, err := strconv.Atoi(s); err == nil && v > 0 {
+			return time.Duration(v) * time.Millisecond
+		}
+	}
+	return 10 * time.Second
+}()
 
 func startWatchdog(j *journal) {
 	go func() {
@@ -391,6 +403,8 @@ type WorkerResult struct {
 	HashCapped bool              `json:"hash_capped"`
 	WallS      float64           `json:"wall_s"`
 	Truncated  bool              `json:"truncated"`
+	NextIdx    int               `json:"next_idx"` // first run index not covered by this (partial) result
+	Final      bool              `json:"final"`
 }
 
 type WorkerArgs struct {
@@ -404,6 +418,7 @@ type WorkerArgs struct {
 	Journal string
 	MaxWall time.Duration
 	HashCap int
+	Skip    map[int]bool // run indices known to kill the process (confirmed by the parent)
 }
 
 // ScriptFor regenerates the script of run index idx (sweep cases first).
@@ -445,10 +460,22 @@ func Worker(a WorkerArgs) int {
 	t0 := time.Now()
 	var longest, faulted *Sample
 	minimised := 0
+	lastCkpt := time.Now()
 	for idx := a.Start; idx < a.Total; idx += a.Stride {
-		if res.Runs&0x3ff == 0 && a.MaxWall > 0 && time.Since(t0) > a.MaxWall {
-			res.Truncated = true
-			break
+		if res.Runs&0xff == 0 {
+			if a.MaxWall > 0 && time.Since(t0) > a.MaxWall {
+				res.Truncated = true
+				break
+			}
+			if iso && time.Since(lastCkpt) > 2*time.Second {
+				res.NextIdx = idx
+				res.WallS = time.Since(t0).Seconds()
+				writeWorkerResult(a, res, hashes)
+				lastCkpt = time.Now()
+			}
+		}
+		if a.Skip[idx] {
+			continue
 		}
 		script := ScriptFor(p, a.Tier, a.Seed, idx)
 		if j != nil {
@@ -512,6 +539,14 @@ func Worker(a WorkerArgs) int {
 				// must not happen (executor is deterministic); keep the original
 				min = script
 				mv, mh, _ = RunOnce(p, min, false)
+				if mv == nil && strings.HasPrefix(v.Sig, "alloc:") {
+					// allocation accounting is exact only to within a couple of MiB; a call
+					// that crossed the (generous) bound by less than that is not reported
+					delete(res.Found, v.Sig)
+					res.ViolRuns--
+					res.Stats.Units["alloc_borderline_unreproduced"]++
+					continue
+				}
 				if mv == nil {
 					fmt.Fprintf(os.Stderr, "worker: run %d violation %q does not re-execute: executor is not deterministic\n", idx, v.Sig)
 					return 2
@@ -529,26 +564,40 @@ func Worker(a WorkerArgs) int {
 		res.Samples = append(res.Samples, *longest)
 	}
 	res.WallS = time.Since(t0).Seconds()
-	// distinct hashes of this worker
-	sort.Slice(hashes, func(i, k int) bool { return hashes[i] < hashes[k] })
+	res.NextIdx = a.Total
+	res.Final = true
+	if err := writeWorkerResult(a, res, hashes); err != nil {
+		fmt.Fprintln(os.Stderr, err)
+		return 2
+	}
+	return 0
+}
+
+// writeWorkerResult writes the (partial or final) result and the distinct
+// log hashes seen so far; the write is atomic (rename).
+func writeWorkerResult(a WorkerArgs, res *WorkerResult, hashes []uint64) error {
+	hs := append([]uint64(nil), hashes...)
+	sort.Slice(hs, func(i, k int) bool { return hs[i] < hs[k] })
 	hf := a.Out + ".hashes"
-	buf := make([]byte, 0, len(hashes)*8)
+	buf := make([]byte, 0, len(hs)*8)
 	var prev uint64
-	for i, h := range hashes {
+	for i, h := range hs {
 		if i > 0 && h == prev {
 			continue
 		}
 		prev = h
 		buf = binary.LittleEndian.AppendUint64(buf, h)
 	}
-	os.WriteFile(hf, buf, 0o644)
+	if err := os.WriteFile(hf+".tmp", buf, 0o644); err != nil {
+		return err
+	}
+	os.Rename(hf+".tmp", hf)
 	res.HashFile = hf
 	b, _ := json.Marshal(res)
-	if err := os.WriteFile(a.Out, b, 0o644); err != nil {
-		fmt.Fprintln(os.Stderr, err)
-		return 2
+	if err := os.WriteFile(a.Out+".tmp", b, 0o644); err != nil {
+		return err
 	}
-	return 0
+	return os.Rename(a.Out+".tmp", a.Out)
 }
 
 // ---------------------------------------------------------------------------
@@ -588,6 +637,10 @@ func ExecOne(path, journalPath string) int {
 // runIsolated executes a script in a child process. It returns the in-process
 // violation (if the child survived) or a synthesised fatal violation.
 func runIsolated(p Property, script interface{}, dir string) (*Violation, string) {
+	return runIsolatedHang(p, script, dir, 0)
+}
+
+func runIsolatedHang(p Property, script interface{}, dir string, hangMS int) (*Violation, string) {
 	raw, _ := json.Marshal(script)
 	rf := ReplayFile{Property: p.ID(), Script: raw}
 	b, _ := json.Marshal(rf)
@@ -596,6 +649,9 @@ func runIsolated(p Property, script interface{}, dir string) (*Violation, string
 	os.Remove(jf)
 	os.WriteFile(f, b, 0o644)
 	cmd := exec.Command(os.Args[0], "exec-one", "--file", f, "--journal", jf)
+	if hangMS > 0 {
+		cmd.Env = append(os.Environ(), "GOTSIM_HANG_MS="+strconv.Itoa(hangMS))
+	}
 	var out, errb bytes.Buffer
 	cmd.Stdout, cmd.Stderr = &out, &errb
 	err := cmd.Run()
@@ -651,7 +707,7 @@ func minimiseIsolated(p Property, script interface{}, sig string, dir string, ma
 				break
 			}
 			execs++
-			v, _ := runIsolated(p, cand, dir)
+			v, _ := runIsolatedHang(p, cand, dir, 1500)
 			if v != nil && v.Sig == sig {
 				cur = cand
 				improved = true
@@ -718,84 +774,40 @@ func Check(propID, tier string) int {
 	t0 := time.Now()
 	type proc struct {
 		cmd     *exec.Cmd
+		w       int
+		start   int
+		gen     int
 		out     string
 		journal string
 		stderr  *bytes.Buffer
 		err     error
 	}
-	procs := make([]*proc, nw)
-	for w := 0; w < nw; w++ {
-		pr := &proc{out: filepath.Join(tmp, fmt.Sprintf("w%d.json", w)), journal: filepath.Join(tmp, fmt.Sprintf("w%d.journal", w)), stderr: &bytes.Buffer{}}
+	skip := map[int][]int{} // worker -> run indices confirmed fatal
+	launch := func(w, start, gen int) (*proc, error) {
+		pr := &proc{w: w, start: start, gen: gen, out: filepath.Join(tmp, fmt.Sprintf("w%d-%d.json", w, gen)),
+			journal: filepath.Join(tmp, fmt.Sprintf("w%d-%d.journal", w, gen)), stderr: &bytes.Buffer{}}
+		var sk []string
+		for _, r := range skip[w] {
+			sk = append(sk, strconv.Itoa(r))
+		}
 		pr.cmd = exec.Command(os.Args[0], "worker", "--property", propID, "--tier", tier, "--seed", strconv.FormatUint(seed, 10),
-			"--start", strconv.Itoa(w), "--stride", strconv.Itoa(nw), "--total", strconv.Itoa(total), "--out", pr.out,
-			"--journal", pr.journal, "--maxwall", maxWall.String(), "--hashcap", strconv.Itoa(hashCap))
+			"--start", strconv.Itoa(start), "--stride", strconv.Itoa(nw), "--total", strconv.Itoa(total), "--out", pr.out,
+			"--journal", pr.journal, "--maxwall", maxWall.String(), "--hashcap", strconv.Itoa(hashCap), "--skip", strings.Join(sk, ","))
 		pr.cmd.Stderr = pr.stderr
 		pr.cmd.Stdout = os.Stdout
-		if err := pr.cmd.Start(); err != nil {
-			fmt.Fprintln(os.Stderr, "cannot start worker:", err)
-			return 2
-		}
-		procs[w] = pr
-	}
-	for _, pr := range procs {
-		pr.err = pr.cmd.Wait()
+		return pr, pr.cmd.Start()
 	}
 	merged := &WorkerResult{Stats: NewStats(), Found: map[string]*Found{}}
 	infra := false
 	var allHashes []uint64
-	for w, pr := range procs {
-		if pr.err != nil {
-			code := pr.cmd.ProcessState.ExitCode()
-			if code == 2 {
-				fmt.Fprintf(os.Stderr, "worker %d failed (infrastructure):\n%s\n", w, tail(pr.stderr.String(), 12))
-				infra = true
-				continue
-			}
-			// the worker died inside a run: suspected fatal violation
-			js := readJournal(pr.journal)
-			if js.Run < 0 {
-				fmt.Fprintf(os.Stderr, "worker %d died without journal (exit %d):\n%s\n", w, code, tail(pr.stderr.String(), 30))
-				infra = true
-				continue
-			}
-			script := ScriptFor(p, tier, seed, js.Run)
-			fmt.Printf("worker %d died (exit %d) in run %d step %d call %q; confirming in a fresh process\n", w, code, js.Run, js.Step, js.Call)
-			v, fatal := runIsolated(p, script, tmp)
-			if v == nil || !strings.HasPrefix(v.Sig, "fatal:") {
-				fmt.Fprintf(os.Stderr, "worker %d death in run %d did not reproduce as fatal (got %v):\n%s\n", w, js.Run, v, tail(pr.stderr.String(), 30))
-				infra = true
-				continue
-			}
-			f := &Found{Sig: v.Sig, Run: js.Run, Viol: v, Count: 1, Fatal: fatal}
-			if k := knownMatch(known, propID, v.Sig); k != nil {
-				f.IsKnown, f.What = true, k.What
-			}
-			orig := p.Size(script)
-			min, execs := minimiseIsolated(p, Clone(p, script), v.Sig, tmp, 300, time.Now().Add(3*time.Minute))
-			mv, _ := runIsolated(p, min, tmp)
-			if mv == nil || mv.Sig != v.Sig {
-				min, mv = script, v
-			}
-			f.Viol, f.Orig, f.Min = mv, orig, p.Size(min)
-			f.Replay = writeReplay(p, tier, seed, js.Run, min, mv, 0, orig, execs, fatal)
-			if old := merged.Found[v.Sig]; old == nil || old.Run > f.Run {
-				merged.Found[v.Sig] = f
-			}
-			// the rest of this worker's share is lost for this batch; say so
-			merged.Truncated = true
-			continue
-		}
-		b, err := os.ReadFile(pr.out)
+	mergeResult := func(path string) (*WorkerResult, bool) {
+		b, err := os.ReadFile(path)
 		if err != nil {
-			fmt.Fprintln(os.Stderr, "worker result missing:", err)
-			infra = true
-			continue
+			return nil, false
 		}
 		var r WorkerResult
 		if err := json.Unmarshal(b, &r); err != nil {
-			fmt.Fprintln(os.Stderr, "worker result unreadable:", err)
-			infra = true
-			continue
+			return nil, false
 		}
 		merged.Runs += r.Runs
 		merged.SweepRuns += r.SweepRuns
@@ -822,6 +834,91 @@ func Check(propID, tier string) int {
 				allHashes = append(allHashes, binary.LittleEndian.Uint64(hb[i:]))
 			}
 		}
+		return &r, true
+	}
+	var wave []*proc
+	for w := 0; w < nw; w++ {
+		pr, err := launch(w, w, 0)
+		if err != nil {
+			fmt.Fprintln(os.Stderr, "cannot start worker:", err)
+			return 2
+		}
+		wave = append(wave, pr)
+	}
+	fatalBudget := 40 // confirmations of process deaths per batch
+	for len(wave) > 0 {
+		for _, pr := range wave {
+			pr.err = pr.cmd.Wait()
+		}
+		var next []*proc
+		for _, pr := range wave {
+			w := pr.w
+			if pr.err == nil {
+				if _, ok := mergeResult(pr.out); !ok {
+					fmt.Fprintf(os.Stderr, "worker %d result missing or unreadable\n", w)
+					infra = true
+				}
+				continue
+			}
+			code := pr.cmd.ProcessState.ExitCode()
+			if code == 2 {
+				fmt.Fprintf(os.Stderr, "worker %d failed (infrastructure):\n%s\n", w, tail(pr.stderr.String(), 12))
+				infra = true
+				continue
+			}
+			// the worker died inside a run: suspected fatal violation
+			js := readJournal(pr.journal)
+			if js.Run < 0 {
+				fmt.Fprintf(os.Stderr, "worker %d died without journal (exit %d):\n%s\n", w, code, tail(pr.stderr.String(), 30))
+				infra = true
+				continue
+			}
+			script := ScriptFor(p, tier, seed, js.Run)
+			fmt.Printf("worker %d died (exit %d) in run %d step %d call %q; confirming in a fresh process\n", w, code, js.Run, js.Step, js.Call)
+			v, fatal := runIsolated(p, script, tmp)
+			if v == nil || !strings.HasPrefix(v.Sig, "fatal:") {
+				fmt.Fprintf(os.Stderr, "worker %d death in run %d did not reproduce as fatal (got %v):\n%s\n", w, js.Run, v, tail(pr.stderr.String(), 30))
+				infra = true
+				continue
+			}
+			if old := merged.Found[v.Sig]; old != nil {
+				old.Count++
+			} else {
+				f := &Found{Sig: v.Sig, Run: js.Run, Viol: v, Count: 1, Fatal: fatal}
+				if k := knownMatch(known, propID, v.Sig); k != nil {
+					f.IsKnown, f.What = true, k.What
+				}
+				orig := p.Size(script)
+				min, execs := minimiseIsolated(p, Clone(p, script), v.Sig, tmp, 250, time.Now().Add(90*time.Second))
+				mv, _ := runIsolated(p, min, tmp)
+				if mv == nil || mv.Sig != v.Sig {
+					min, mv = script, v
+				}
+				f.Viol, f.Orig, f.Min = mv, orig, p.Size(min)
+				f.Replay = writeReplay(p, tier, seed, js.Run, min, mv, 0, orig, execs, fatal)
+				merged.Found[v.Sig] = f
+			}
+			merged.ViolRuns++
+			// keep what the dead worker had checkpointed and continue after it
+			from := pr.start
+			if r, ok := mergeResult(pr.out); ok && r.NextIdx > from {
+				from = r.NextIdx
+			}
+			skip[w] = append(skip[w], js.Run)
+			fatalBudget--
+			if fatalBudget <= 0 {
+				merged.Truncated = true
+				continue
+			}
+			np, err := launch(w, from, pr.gen+1)
+			if err != nil {
+				fmt.Fprintln(os.Stderr, "cannot restart worker:", err)
+				infra = true
+				continue
+			}
+			next = append(next, np)
+		}
+		wave = next
 	}
 	if infra {
 		return 2
